@@ -10,10 +10,11 @@
 //
 // oracle (coded here, nothing from nano/function/util.h is used):
 //   * directional derivative: central differences at two steps h1 = 1e-4*max(1,|x|), h2 = 1e-6*max(1,|x|) of the
-//     value-only call, compared with g.(x+ - x-)/2h. A violation needs: both steps disagree with g.d beyond their
-//     tolerance (rounding noise 1e-13*F/h + truncation estimated from the two steps), the two steps agree with each other
-//     (|cd1-cd2| <= 0.25*min(err)), and the point is not a kink along d (second difference does not shrink with h).
-//     Kinks and unresolved cases are counted as trivial.
+//     value-only call, compared with g.(x+ - x-)/2h. Agreement at h2 within (rounding noise 4e-13*F/h2 + 2% of the two-step
+//     truncation estimate) passes. Otherwise a violation needs all of: the point is not a kink along d (the jump J of the
+//     one-sided derivatives, extrapolated from the second differences D(h) = J + c*h at the two steps, is at noise level),
+//     the coarse step also disagrees beyond its tolerance, and the two steps agree with each other
+//     (|cd1-cd2| <= 0.25*min(err)). Kinks and unresolved cases are counted as trivial and logged.
 //   * value-only call == value returned together with the gradient (1e-15 relative).
 //   * declared convex => f(z) >= f(x) + g(x).(z-x) [+ mu/2 |z-x|^2] - tol for ALL ordered pairs of lattice points.
 //   * losses: batch == each sample alone, loss >= 0, error >= 0, 0-1 error == arg-max (s-*) / sign (m-*) rule.
@@ -214,7 +215,7 @@ enum class dd
 
 struct dd_detail_t
 {
-    double gd1 = 0, gd2 = 0, cd1 = 0, cd2 = 0, tol1 = 0, tol2 = 0, D1 = 0, D2 = 0, h1 = 0, h2 = 0;
+    double gd1 = 0, gd2 = 0, cd1 = 0, cd2 = 0, tol1 = 0, tol2 = 0, D1 = 0, D2 = 0, h1 = 0, h2 = 0, J = 0;
 };
 
 constexpr double STEP1 = 1e-4, STEP2 = 1e-6;
@@ -251,8 +252,13 @@ dd judge_derivative(const object_t& o, const evec& x, const double f0, const eve
     {
         return dd::agree;
     }
-    // a kink at (or within a fraction of h2 of) x: the second difference does not shrink with the step
-    if (std::fabs(D[1]) > 8 * noise2 && std::fabs(D[1]) > 0.25 * std::fabs(D[0]))
+    // a kink at (or within a fraction of h2 of) x: forward minus backward quotient D(h) = J + c*h with a jump J != 0 of the
+    // one-sided derivatives; the two steps separate the jump from the curvature term c*h (which may dominate D(h1), e.g.
+    // ridge terms with a factor 1e6)
+    const double J = (D[1] * t.h1 - D[0] * t.h2) / (t.h1 - t.h2);
+    const double c = (D[0] - D[1]) / (t.h1 - t.h2);
+    t.J            = J;
+    if (std::fabs(J) > 8 * noise2 + 0.02 * std::fabs(c) * t.h2)
     {
         return dd::kink;
     }
@@ -367,6 +373,7 @@ evaluated_t check_object(report_t& r, const std::string& one, const object_t& o,
                                   {"central_difference_h1", jnum(t.cd1)}, {"tolerance_h2", jnum(t.tol2)},
                                   {"tolerance_h1", jnum(t.tol1)}, {"h1", jnum(t.h1)}, {"h2", jnum(t.h2)},
                                   {"second_difference_h1", jnum(t.D1)}, {"second_difference_h2", jnum(t.D2)},
+                                  {"estimated_jump_of_one_sided_derivatives", jnum(t.J)},
                                   {"gradient", show(e.g[i])}, {"f", jnum(f0)}}));
             }
         }
@@ -507,6 +514,16 @@ object_t handmade(const int kind)
             return x.lpNorm<1>();
         };
         break;
+    case 7: // kink under a huge curvature (ridge factor 1e6) with a one-sided valid sub-gradient: must be skipped as a kink
+        o.convex = true;
+        o.mu     = 1e6;
+        o.value  = [](const evec& x) { return x.array().max(0.0).sum() + 5e5 * x.squaredNorm(); };
+        o.vgrad  = [](const evec& x, evec& g)
+        {
+            g = (x.array() >= 0).cast<double>().matrix() + 1e6 * x;
+            return x.array().max(0.0).sum() + 5e5 * x.squaredNorm();
+        };
+        break;
     default: // value-only differs from value+gradient
         o.value = [](const evec& x) { return x.squaredNorm(); };
         o.vgrad = [](const evec& x, evec& g)
@@ -523,8 +540,8 @@ bool selftest(const args_t& args)
 {
     const auto pts  = make_points(3, {1e-3, 0.1, 1, 10});
     const auto dirs = make_dirs(3, false);
-    const char* expect[] = {"", "gradient:", "strong-convexity:", "convexity:", "", "convexity:", "value-only:"};
-    for (int kind = 0; kind < 7; ++kind)
+    const char* expect[] = {"", "gradient:", "strong-convexity:", "convexity:", "", "convexity:", "value-only:", ""};
+    for (int kind = 0; kind < 8; ++kind)
     {
         report_t scratch("selftest", args);
         const auto o = handmade(kind);
@@ -542,9 +559,9 @@ bool selftest(const args_t& args)
         {
             return false;
         }
-        if (kind == 4 && json.find("kink-along-direction") == std::string::npos)
+        if ((kind == 4 || kind == 7) && json.find("kink-along-direction") == std::string::npos)
         {
-            std::fprintf(stderr, "oracle self-test 4: no kink recognised\n");
+            std::fprintf(stderr, "oracle self-test %d: no kink recognised\n", kind);
             return false;
         }
     }
